@@ -1,6 +1,7 @@
 package engine
 
 import (
+	"fmt"
 	"go/token"
 	"go/types"
 	"math"
@@ -27,6 +28,49 @@ func mkError(msg string, args []Value) Value {
 		}
 	}
 	return Iface{t: errValType, v: ev}
+}
+
+// goArgs converts interpreter values (boxed in interfaces) to Go values for
+// formatting; symbolic integers print as a unique placeholder.
+func goArgs(vals []Value) []interface{} {
+	out := make([]interface{}, len(vals))
+	for i, v := range vals {
+		var t types.Type
+		if f, ok := v.(Iface); ok {
+			t, v = f.t, f.v
+		}
+		switch x := v.(type) {
+		case *Term:
+			if !x.IsConst() {
+				out[i] = fmt.Sprintf("<sym%d>", x.id)
+				break
+			}
+			signed := true
+			if t != nil {
+				if w, sg, ok := typeWidth(t); ok {
+					signed = sg
+					if w == 0 {
+						out[i] = x.c != 0
+						continue
+					}
+				}
+			}
+			if signed {
+				out[i] = x.SConst()
+			} else {
+				out[i] = x.c
+			}
+		case string, float64, float32:
+			out[i] = x
+		case *errorValue:
+			out[i] = x.msg
+		case nil:
+			out[i] = nil
+		default:
+			out[i] = fmt.Sprintf("<%T>", x)
+		}
+	}
+	return out
 }
 
 func f1(f func(float64) float64) intrinsic {
@@ -60,8 +104,20 @@ func init() {
 			}
 			return mkError(args[0].(string), rest)
 		},
-		"fmt.Sprintf": func(ex *Exec, fn *ssa.Function, args []Value, pos token.Pos) Value { return args[0].(string) },
-		"fmt.Sprint":  func(ex *Exec, fn *ssa.Function, args []Value, pos token.Pos) Value { return "<sprint>" },
+		"fmt.Sprintf": func(ex *Exec, fn *ssa.Function, args []Value, pos token.Pos) Value {
+			var rest []Value
+			if s, ok := args[1].(Slice); ok {
+				rest = s.a
+			}
+			return fmt.Sprintf(args[0].(string), goArgs(rest)...)
+		},
+		"fmt.Sprint": func(ex *Exec, fn *ssa.Function, args []Value, pos token.Pos) Value {
+			var rest []Value
+			if s, ok := args[0].(Slice); ok {
+				rest = s.a
+			}
+			return fmt.Sprint(goArgs(rest)...)
+		},
 		"fmt.Printf": func(ex *Exec, fn *ssa.Function, args []Value, pos token.Pos) Value {
 			return Tuple{ex.tb.Const(64, 0), Iface{}}
 		},
